@@ -66,6 +66,11 @@ CPPInstance(CPPType *type, CPPInstanceIdentifier *ii, int storage_class,
             const CPPFile &file) :
   CPPDeclaration(file)
 {
+  if (type == nullptr) {
+    // The type could not be resolved (an error has been reported already);
+    // keep going with an unknown type instead of a null pointer.
+    type = CPPType::new_type(new CPPSimpleType(CPPSimpleType::T_unknown));
+  }
   _type = ii->unroll_type(type);
   _ident = ii->_ident;
   _attributes = ii->_attributes;
